@@ -15,11 +15,11 @@ RULE = ("every alias assignment over the three alias sources for a required and 
 ASSUMPTIONS = ["two fields (required x, defaulted y); candidate keys: names, every source's alias, a stranger, 'None', the discriminator key"]
 UNIT_TIMEOUT = 600
 CHUNK = 4
-CAND = ["x", "xM", "xA", "xC", "y", "yM", "yA", "yC", "zz", "None", "kind"]
+CAND = ["x", "xM", "xA", "xC", "y", "yM", "yA", "yC", "zz", "None", "kind", "xTop"]
 
 
 def bounds(tier):
-    return dict(tier=tier, alias_assignments=64, flags=4, field_types=["int (converted)", "Any (passed through)"], discriminator=[False, True], inheritance=["flat", "x in parent / y in subclass"], entry_points=["mixin", "codec", "via-base"],
+    return dict(tier=tier, alias_assignments=64, flags=4, field_types=["int (converted)", "Any (passed through)"], discriminator=[False, True], inheritance=["flat", "x in parent / y in subclass", "x in grandparent under another alias, re-declared by the parent, y in subclass"], entry_points=["mixin", "codec", "via-base"],
                 candidate_keys=CAND, key_subsets=2 ** len(CAND))
 
 
@@ -30,7 +30,9 @@ def units(tier):
             for allow, forbid in itertools.product((False, True), repeat=2):
                 for discr in (False, True):
                     for anytyped in (False, True):      # int fields are converted, Any fields are passed through as they are
-                        for inherit in (False, True):   # x declared by a parent class with the same Config, y added by the subclass
+                        # x declared by a parent class with the same Config, y added by the subclass; 2 = three levels: a grandparent
+                        # declares x under ANOTHER metadata alias, the parent re-declares it, the subclass adds y
+                        for inherit in (False, True, 2):
                             out.append((xs, ys, allow, forbid, discr, anytyped, inherit))
     return out
 
@@ -60,6 +62,11 @@ def build(xs, ys, allow, forbid, discr, mixin, ctx, anytyped=False, inherit=Fals
     def mk_parent(pbases):
         # the parent is a complete class of its own (compiled first, same flags, its own alias table)
         pcfg = type("Config", (BaseConfig,), dict(cfg, aliases={k: v for k, v in aliases.items() if k == "x"}))
+        if inherit == 2:
+            top = make_dataclass("Top", [("x", base_t, field(metadata={"alias": "xTop"}))], bases=pbases,
+                                 namespace={"Config": pcfg, "__module__": ctx.modname})
+            ctx.ns["Top"] = top
+            pbases = (top,)
         par = make_dataclass("Par", [("x", xt, xf)], bases=pbases, namespace={"Config": pcfg, "__module__": ctx.modname})
         ctx.ns["Par"] = par
         return par
@@ -129,8 +136,9 @@ def run_unit(unit, only=None):
     clsp, _, _, _ = build(xs, ys, allow, forbid, discr, False, ctx2, anytyped, inherit)
     eps.append(("codec", clsp, BasicDecoder(clsp).decode))
     res.transitions += 3
-    for mask in range(1 << len(CAND)):
-        d = {k: (10 + i if k != "kind" else "s") for i, k in enumerate(CAND) if mask >> i & 1}
+    cand = CAND if inherit == 2 else CAND[:-1]       # the grandparent's alias is a candidate key only where there is a grandparent
+    for mask in range(1 << len(cand)):
+        d = {k: (10 + i if k != "kind" else "s") for i, k in enumerate(cand) if mask >> i & 1}
         for ep, c, fn in eps:
             if ep == "via-base" and "kind" not in d:
                 continue
